@@ -19,7 +19,8 @@ def fw_error():
     cfg['handlers'].append(['B', 'P', 'hBoomB', [['sleep', 'd1'], ['raise', 'ValueError']]])
     cfg['main'] = [['root', 'A', 'P', 'P1'], ['idle', 'A'], ['idle', 'B'], ['await', 'P1'],
                    ['accessor', 'P1', {'raise_if_any': True, 'raise_if_none': False}],
-                   ['accessor', 'P1', {'raise_if_any': False, 'raise_if_none': False}], ['obs_all', 'end']]
+                   ['accessor', 'P1', {'raise_if_any': False, 'raise_if_none': False}],
+                   ['accessor', 'P1', {'raise_if_any': False, 'raise_if_none': True}], ['obs_all', 'end']]
     return cfg
 
 
@@ -37,6 +38,8 @@ def jobs(tier):
         mk('C11', 'errors/awaited_child', S.errors('ValueError', 'awaited_child'), witnesses=W),
         mk('C11', 'errors/ff_child', S.errors('Custom', 'ff_child'), witnesses=W),
         mk('C11', 'errors/forwarded', fw_error(), witnesses=W),
+        mk('C11', 'errors/parent/only_failing', S.errors('Custom', 'parent', only_failing=True), witnesses=W),
+        mk('C11', 'errors/awaited_child/only_failing/ret_exc', S.errors('KeyError', 'awaited_child', ret_exc=True, only_failing=True), witnesses=W),
         mk('C11', 'par_parent_serial_child', S.par_parent_serial_child(), witnesses=W),
     ]
     if tier == 'thorough':
